@@ -11,11 +11,22 @@ LAZE2 = os.path.join(common.BUILD, "laze-other-binary")
 
 
 def other_binary():
+    global LAZE2
     if not os.path.exists(LAZE2) or os.path.getmtime(LAZE2) < os.path.getmtime(common.LAZE):
-        shutil.copy(common.LAZE, LAZE2)
-        with open(LAZE2, "ab") as f:
-            f.write(b"\0verif")
-        os.chmod(LAZE2, 0o755)
+        try:
+            tmp = LAZE2 + f".{os.getpid()}"
+            shutil.copyfile(common.LAZE, tmp)
+            with open(tmp, "ab") as f:
+                f.write(b"\0verif")
+            os.chmod(tmp, 0o755)
+            os.replace(tmp, LAZE2)          # atomic: parallel workers never see (or execute) a half-written copy
+        except OSError:
+            os.makedirs(projrun.SCRATCH, exist_ok=True)
+            LAZE2 = os.path.join(projrun.SCRATCH, "laze-other-binary")
+            shutil.copyfile(common.LAZE, LAZE2)
+            with open(LAZE2, "ab") as f:
+                f.write(b"\0verif")
+            os.chmod(LAZE2, 0o755)
     return LAZE2
 
 
@@ -69,9 +80,56 @@ def gen_history(seed, i, maxlen):
     return {"project": p, "events": evs, "final": final}
 
 
+def gen_nearmiss(seed, i):
+    """two command lines that differ in one component of the cache key in a way that is easy to lose: `=` vs `+=` of one --define,
+    the order of two --select entries, `?m` vs `m`, a partition vs none, a repeated --define in two orders, a sub-/superset of builders"""
+    rng = random.Random(seed * 5227 + i)
+    p = projgen.gen_project(seed + 860, i, PROF)
+    p["args"] = {}
+    builders = [b["name"] for b in p["files"]["laze-project.yml"][0]["builders"]]
+    mods = sorted({m["name"] for kind, m, path in projcheck.yaml_modules(p) if kind == "modules"}) or ["m0"]
+    m0, m1 = mods[0], mods[-1]
+    v = rng.choice(["LIBS", "CFLAGS", "X"])
+    pairs = [({"define": [v + "=zz"]}, {"define": [v + "+=zz"]}),
+             ({"define": ["X=1", "X=2"]}, {"define": ["X=2", "X=1"]}),
+             ({"define": [v + "=a"]}, {"define": [v + "=a", v + "+=a"]}),
+             ({"select": ["?" + m0, "?" + m1]}, {"select": ["?" + m1, "?" + m0]}),
+             ({"select": ["?" + m0]}, {"select": [m0]}),
+             ({"disable": [m0]}, {"select": ["?" + m0]}),
+             ({}, {"partition": "count:1/2"}), ({"partition": "count:1/2"}, {"partition": "count:2/2"}), ({"partition": "count:1/2"}, {"partition": "hash:1/2"}),
+             ({"builders": builders[:1]}, {"builders": builders})]
+    a, b = pairs[i % len(pairs)]
+    if rng.random() < 0.5:
+        a, b = b, a
+    evs = [{"e": "run", "args": a}, {"e": "run", "args": b}]
+    if rng.random() < 0.3:
+        evs.append({"e": "run", "args": a})
+    return {"project": p, "events": evs, "final": rng.choice([a, b])}
+
+
+def define_key(defs):
+    """the --define component of the cache key: the assignments folded in order into one env (`V=x` replaces, `V+=x` appends to a
+    list and replaces anything else), listed by variable name — what `cli_env_hash` hashes"""
+    env = {}
+    for d in defs or []:
+        i = d.find("=")
+        if i < 0:
+            env[d] = ["?", d]
+            continue
+        if i > 0 and d[i - 1] == "+":
+            k, v = d[:i - 1], d[i + 1:]
+            if isinstance(env.get(k), list) and env[k][0] == "l":
+                env[k] = ["l", env[k][1] + [v]]
+            else:
+                env[k] = ["l", [v]]
+        else:
+            env[d[:i]] = ["s", d[i + 1:]]
+    return [json.dumps([k, env[k]]) for k in sorted(env)]
+
+
 def key_of(args, uuid, configured=None):
     k = {"mode": "global" if args.get("local") is None else "local:" + os.path.normpath(args["local"] or "."), "builders": args.get("builders"), "apps": args.get("apps"), "select": args.get("select"),
-         "disable": args.get("disable"), "define": sorted(args.get("define") or []), "partition": args.get("partition"), "uuid": uuid}
+         "disable": args.get("disable"), "define": define_key(args.get("define")), "partition": args.get("partition"), "uuid": uuid}
     if configured is not None:
         cb, ca, where = configured
         if args.get("local") is not None:
@@ -361,7 +419,7 @@ def judge(chk, sc, res):
                 for comp in ("select", "disable", "define", "partition", "local"):
                     va, vw = a.get(comp), w.get(comp)
                     if comp == "define":
-                        va, vw = sorted(va or []), sorted(vw or [])
+                        va, vw = define_key(va), define_key(vw)
                     if comp == "local" and va is not None and vw is not None:
                         va, vw = os.path.normpath(va or "."), os.path.normpath(vw or ".")
                     if va != vw:
@@ -405,7 +463,8 @@ def run(chk):
                 "if R is a hit then exit status, ninja invocation and every requested build's statements equal the cold run's; no hit right after a "
                 "change; an identical re-run hits; per event, hit/miss, cache presence and ninja completeness are compared with the protocol model; "
                 "non-trivial = the final run is a hit after >=1 earlier event besides the first run; distinct by scenario hash")
-    scs = [c["scenario"] for c in common.load_corpus("C08") if "scenario" in c] + [gen_history(chk.seed, i, maxlen) for i in range(n)]
+    scs = [c["scenario"] for c in common.load_corpus("C08") if "scenario" in c] + [gen_history(chk.seed, i, maxlen) for i in range(n)] + \
+        [gen_nearmiss(chk.seed, i) for i in range(24 if chk.tier == "quick" else 600)]
     for sc, res in common.parallel_map(worker, scs):
         judge(chk, sc, res)
     chk.assumptions = ["stamps are (len, mtime): every edit of the harness changes mtime", "kill = _exit at a hook point (unflushed buffers lost); power loss / fsync ordering not modelled",
